@@ -232,18 +232,53 @@ def respSiteHolds (ins : List RespAct) (enc : List SVar) : Bool :=
   | some d => respRuleOk (ins.map (·.sanitized)) d
   | none => false
 
+/-! ### Legacy (policies) mode sites: `DispatchOnRequest` / `DispatchOnResponse`
+
+Observed: the request's header map, the configured remedies (in order) and the variables that
+come back.  `scriptReq` / `scriptResp` (environment section of the model file) say what each
+configured remedy answers; nothing of the fold is used. -/
+
+/-- Header edits of the response-side modifications, in order. -/
+def respEdits (as : List RespAct) : List Hdrs :=
+  as.filterMap fun a => match a with | .modResp h _ _ => some h | _ => none
+
+/-- The variables of `DispatchOnRequest` obey the rule for the remedies' answers.  When a remedy
+    answered the request itself, the first such answer wins UNCHANGED in status and body; its
+    header map may only gain the header edits of the response-side modifications that run on
+    that answer (`obtainModifiedEarlyResponse`), later edit winning. -/
+def legacyReqHolds (H0 : Hdrs) (rs : List Remedy) (enc : List SVar) : Bool :=
+  let ins := scriptReq { hdrs := H0 } rs
+  match decodeReq enc with
+  | none => false
+  | some d =>
+    match firstEarly ins with
+    | none => reqFoldOk (ins.map (·.sanitized)) d
+    | some (.early s b h) =>
+      (match d with
+       | .early s' b' h' =>
+         s' == s && b' == b && hdrsUnion ((h :: respEdits (scriptResp s rs)).map sanitizeHdrs) h'
+       | _ => false)
+    | some _ => false
+
+def legacyRespHolds (status : Int) (rs : List Remedy) (enc : List SVar) : Bool :=
+  respSiteHolds (scriptResp status rs) enc
+
 /-- One observation: a fold step (action and variables visible) or a call of a fold site. -/
 inductive Obs where
   | req (ins : List ReqAct) (out : ReqAct) (enc : List SVar)
   | resp (ins : List RespAct) (prev out : RespAct) (enc : List SVar)
   | reqSite (ins : List ReqAct) (enc : List SVar)
   | respSite (ins : List RespAct) (enc : List SVar)
+  | legacyReq (H0 : Hdrs) (rs : List Remedy) (enc : List SVar)
+  | legacyResp (status : Int) (rs : List Remedy) (enc : List SVar)
 
 def Obs.holds : Obs → Bool
   | .req ins out enc => reqHolds ins out enc
   | .resp ins prev out enc => respHolds ins prev out enc
   | .reqSite ins enc => reqSiteHolds ins enc
   | .respSite ins enc => respSiteHolds ins enc
+  | .legacyReq H0 rs enc => legacyReqHolds H0 rs enc
+  | .legacyResp st rs enc => legacyRespHolds st rs enc
 
 def holds (h : List Obs) : Bool := h.all Obs.holds
 
